@@ -65,7 +65,8 @@ class C16(fw.Prop):
             "taken as the operation's num_out; port equality/hash pairs. non-trivial = query with a negative, "
             "overflowing or below -n bound, step>1, an unknown count, or a handle produced by a builder/history")
     trusted = ["for builder handles the expected count is read from the implementation's own op.num_out "
-               "(C06 decides whether num_out itself is right)"]
+               "(C06 decides whether num_out itself is right); where num_out is not an int the number of outputs "
+               "of outer_signature() is used"]
 
     def generate(self, rng, tier, ctx):
         cases = []
@@ -220,7 +221,11 @@ def _scenarios():
     from hugr.std.logic import Not
 
     def num_out(h, n):
-        return h.hugr[n].op.num_out
+        op = h.hugr[n].op
+        v = op.num_out
+        # LoadFunc.num_out is a dataclasses.Field on the original tree (C06's concern); the count the
+        # handle must know is the number of value outputs of the operation's signature
+        return v if isinstance(v, int) else len(op.outer_signature().output)
 
     S = []
 
